@@ -122,12 +122,62 @@ def sweep_if(fn):
     return t.comparators[0].value, branch(ifs[0].body), branch(ifs[0].orelse), gt.comparators[0].value
 
 
+def init_warn_return(fn):
+    """initialisation of p, q, x before the loop, the warning condition after it and the variable returned"""
+    init = {}
+    for st in fn.body:
+        if isinstance(st, ast.For):
+            break
+        if isinstance(st, ast.Assign) and len(st.targets) == 1 and isinstance(st.targets[0], ast.Name) \
+                and st.targets[0].id in ("p_prev", "q_prev", "x_prev"):
+            u = ast.unparse(st.value)
+            if u in ("self.generate_zero_obj()", "self.generate_zero_obj().to_stacked_vector()"):
+                init[st.targets[0].id] = "Vec.zero"
+            elif u == "self.copy()" or u.startswith("self.convert_var_to_stacked_vector(self.composite_system, var"):
+                init[st.targets[0].id] = "x0"
+            else:
+                raise Untranslatable(f"{fn.name}: initialisation of {st.targets[0].id}: {u}")
+    if sorted(init) != ["p_prev", "q_prev", "x_prev"]:
+        raise Untranslatable(f"{fn.name}: p_prev, q_prev, x_prev must be initialised before the loop: {init}")
+    warns = [n for n in fn.body if isinstance(n, ast.If) and isinstance(n.test, ast.Compare) and isinstance(n.test.left, ast.Name)
+             and n.test.left.id == "k"]
+    if len(warns) != 1:
+        raise Untranslatable(f"{fn.name}: warning condition after the loop not found")
+    wt = warns[0].test
+    if not (len(wt.ops) == 1 and isinstance(wt.ops[0], ast.Eq) and ast.unparse(wt.comparators[0]) == "max_iteration - 1"):
+        raise Untranslatable(f"{fn.name}: warning condition is not `k == max_iteration - 1`: " + ast.unparse(wt))
+    rets = set()
+    for n in ast.walk(fn):
+        if isinstance(n, ast.Return) and n.value is not None:
+            v = n.value.elts[0] if isinstance(n.value, ast.Tuple) else n.value
+            if not isinstance(v, ast.Name):
+                raise Untranslatable(f"{fn.name}: return value {ast.unparse(n.value)}")
+            rets.add(v.id)
+    if len(rets) != 1:
+        raise Untranslatable(f"{fn.name}: returns {rets}")
+    ret = rets.pop()
+    # the variable-level routine converts the returned stacked vector back to variables under the same name
+    conv = [st for st in fn.body if isinstance(st, ast.Assign) and isinstance(st.targets[0], ast.Name) and st.targets[0].id == ret
+            and "convert_stacked_vector_to_var" in ast.unparse(st.value)]
+    for st in conv:
+        args = st.value.args
+        if not (len(args) == 2 and isinstance(args[1], ast.Name) and args[1].id == ret):
+            raise Untranslatable(f"{fn.name}: conversion of the returned vector: {ast.unparse(st)}")
+    if ret not in ("x_next", "y_next", "p_next", "q_next"):
+        raise Untranslatable(f"{fn.name}: returns {ret}")
+    return init, ret
+
+
 def translate():
     src = open(os.path.join(REPO, "quara", "objects", "qoperation.py")).read()
     tree = ast.parse(src)
     cls = [n for n in tree.body if isinstance(n, ast.ClassDef) and n.name == "QOperation"][0]
     lit_o, o_then, o_else, g_o = sweep_if(find_method(cls, "calc_proj_physical"))
     lit_v, v_then, v_else, g_v = sweep_if(find_method(cls, "calc_proj_physical_with_var"))
+    init_o, ret_o = init_warn_return(find_method(cls, "calc_proj_physical"))
+    init_v, ret_v = init_warn_return(find_method(cls, "calc_proj_physical_with_var"))
+    if init_o != init_v or ret_o != ret_v:
+        raise Untranslatable("object-level and variable-level routines differ in initialisation / returned variable")
     if lit_o != lit_v or g_o != g_v:
         raise Untranslatable("object-level and variable-level routines use different branch literals / guards")
     # stopping value and comparison
@@ -183,6 +233,15 @@ def varElse {hdr}
 
 def stopValue (p_prev p_next q_prev q_next : Vec R N) : R :=
   fsum N fun i => {err}
+
+/-- `(x_prev, p_prev, q_prev)` before the loop (`x0` = the input, `Vec.zero` = `generate_zero_obj()`) -/
+def init (x0 : Vec R N) : Vec R N × Vec R N × Vec R N := ({init_o["x_prev"]}, {init_o["p_prev"]}, {init_o["q_prev"]})
+
+/-- the variable returned after the loop -/
+def returned (y_next p_next x_next q_next : Vec R N) : Vec R N := {ret_o}
+
+/-- `if k == max_iteration - 1:` (warning) -/
+def warns (k max_iteration : Nat) : Bool := k == max_iteration - 1
 
 def stops [LT R] [DecidableRel (α := R) (· < ·)] [LE R] [DecidableRel (α := R) (· ≤ ·)] (error_value eps_proj_physical : R) : Bool :=
   decide (error_value {ops[type(ct.ops[0])]} eps_proj_physical)
